@@ -12,7 +12,7 @@ PROPS = {
                      "is verified by Verus, for all stack depths / slot counts / histories, against an abstract view "
                      "(slots, explicit stack, sequence of pending frames each holding the WHOLE state at creation): pop restores exactly the newest frame; "
                      "save/stack_push/stack_pop change only the current values and no frame; backtrack_cut keeps current values and frames.take(count)."),
-        residual="U-RUN arms (BeginAtomic/EndAtomic/FailNegativeLookAround) are owned by C20 as soon as U-RUN is wired; until then only the State discipline is decided.",
+        residual="The atomic / look-around arms of run are proved to use these operations as the spec machine says (U-RUN refinement), under flow assumptions A1 / A2 (listed in U-RUN).",
         assumptions=[T_VSTD, T_ARITH, T_EXTRACT, "T-swap: <[T]>::swap swaps two in-bounds elements", "T-veclen: a Vec's length is <= usize::MAX (<= isize::MAX for Vec<usize>)"],
     ),
     'C08': dict(
@@ -86,5 +86,83 @@ PROPS = {
                   "they are exercised only by the bounded families. compile.rs arithmetic is decided in U-COMPILE."),
         assumptions=[T_VSTD, T_ARITH, T_EXTRACT, "T-parser-shape (expr_wf) for trees reaching analyze"],
         bounded_families=['analyze', 'parse'],
+    ),
+    'C05': dict(
+        level='proof',
+        bounded_families=['search', 'iter'],
+        explanation=("vm::run is verified by Verus for every well-formed program, every text and every start offset on a char boundary: every index, slice (&s[lo..hi] in Backref included), "
+                     "unwrap, subtraction and addition in all 21 instruction arms is in bounds / on a character boundary / overflow-free; the reported overall span satisfies start <= end <= len with both ends on boundaries; "
+                     "the only errors are StackOverflow and BacktrackLimitExceeded. The UTF-8 stepping helpers, Match::as_str, Captures::get (no index overflow), Split::next / SplitN::next slicing are verified in their units."),
+        residual=("Flow assumptions A1-A5 inside run (listed) and prog_wf as precondition; start <= end for groups >= 1 is not proved (only that each slot is unset or a boundary <= len); "
+                  "try_replacen is covered only by the bounded `search` family; the parser/compiler side is C06."),
+        assumptions=[T_VSTD, T_ARITH, T_EXTRACT, "A1 (assume in run, EndAtomic): the explicit stack is non-empty and its top is <= the number of pending alternatives",
+                     "A2 (assume in run, FailNegativeLookAround): an alternative resuming at pc+1 is pending",
+                     "A3 (assume / precondition): iteration counters and the backtrack counter stay below 2^64 - 1 (backtrack_limit < usize::MAX)",
+                     "A4 (assume in run, End): slots 0 and 1 have been set when End is reached",
+                     "A5 (assume in run, Restore): the restored slot has been set",
+                     "prog_wf(prog): static well-formedness of the program (jump targets, slot indices, counter / position slot typing) is a PRECONDITION of run; U-COMPILE covers the functions that emit code",
+                     "T-RA-search / T-RA-look: regex-automata's anchored search returns offsets in [ix, len] on char boundaries with paired slots; LookMatcher is total and the unicode word-boundary variants return Ok",
+                     "the inner interpreter loop is verified with exec_allows_no_decreases_clause: termination of a non-failing instruction cycle is NOT proved"],
+    ),
+    'C07': dict(
+        level='proof',
+        explanation=("Proved: vm::run refines the spec machine, in which every backtrack increments bt and a search stops with BacktrackLimitExceeded exactly when bt + 1 > limit at a failure with pending alternatives, "
+                     "and with StackOverflow exactly when an alternative would be the (MAX_STACK+1)-th; lemma_limit_monotone (on the spec machine): a run with limit L either ends in LimitExceeded or equals the unlimited run, "
+                     "and equals it whenever the unlimited run needs at most L backtracks; the analysis' min_size is a sound lower bound (U-ANALYZE), so a body that can match empty has min_size 0."),
+        residual=("Termination of a non-failing instruction cycle inside one branch and 'tiny explorations never hit the limits' need compiler correctness (compile_repeat's choice of the epsilon-guarded loop is U-COMPILE); "
+                  "the outer loop's step bound follows from the refinement only together with that."),
+        assumptions=[T_VSTD, T_ARITH, T_EXTRACT, "A1 (assume in run, EndAtomic): the explicit stack is non-empty and its top is <= the number of pending alternatives",
+                     "A2 (assume in run, FailNegativeLookAround): an alternative resuming at pc+1 is pending",
+                     "A3 (assume / precondition): iteration counters and the backtrack counter stay below 2^64 - 1 (backtrack_limit < usize::MAX)",
+                     "A4 (assume in run, End): slots 0 and 1 have been set when End is reached",
+                     "A5 (assume in run, Restore): the restored slot has been set",
+                     "prog_wf(prog): static well-formedness of the program (jump targets, slot indices, counter / position slot typing) is a PRECONDITION of run; U-COMPILE covers the functions that emit code",
+                     "T-RA-search / T-RA-look: regex-automata's anchored search returns offsets in [ix, len] on char boundaries with paired slots; LookMatcher is total and the unicode word-boundary variants return Ok",
+                     "the inner interpreter loop is verified with exec_allows_no_decreases_clause: termination of a non-failing instruction cycle is NOT proved"],
+    ),
+    'C01': dict(
+        level='proof',
+        explanation=("Component obligations only: (i) vm::run computes exactly what the spec machine (the documented instruction semantics) computes, arm by arm -- Split priority, greedy / lazy repeat order, "
+                     "epsilon guard, Backref comparison, GoBack in characters, atomic cut, delegate anchoring at ix, the \\K / End caps; (ii) the State discipline (U-STATE); (iii) soundness of min_size / const_size / hard (U-ANALYZE); "
+                     "(iv) the UTF-8 helpers."),
+        residual=("NOT covered: that the compiled program implements the reference semantics of the AST (compile_concat's delegation placement, compile_* lowering) and that regex-automata agrees with the reference on delegated pieces. "
+                  "This is a verified-compiler statement, out of reach of per-function contracts (DESIGN.md 6)."),
+        assumptions=[T_VSTD, T_ARITH, T_EXTRACT, "A1 (assume in run, EndAtomic): the explicit stack is non-empty and its top is <= the number of pending alternatives",
+                     "A2 (assume in run, FailNegativeLookAround): an alternative resuming at pc+1 is pending",
+                     "A3 (assume / precondition): iteration counters and the backtrack counter stay below 2^64 - 1 (backtrack_limit < usize::MAX)",
+                     "A4 (assume in run, End): slots 0 and 1 have been set when End is reached",
+                     "A5 (assume in run, Restore): the restored slot has been set",
+                     "prog_wf(prog): static well-formedness of the program (jump targets, slot indices, counter / position slot typing) is a PRECONDITION of run; U-COMPILE covers the functions that emit code",
+                     "T-RA-search / T-RA-look: regex-automata's anchored search returns offsets in [ix, len] on char boundaries with paired slots; LookMatcher is total and the unicode word-boundary variants return Ok",
+                     "the inner interpreter loop is verified with exec_allows_no_decreases_clause: termination of a non-failing instruction cycle is NOT proved"],
+    ),
+    'C02': dict(
+        level='proof',
+        explanation=("Component obligations: slot writes in run are exactly those of the spec machine (Save, Save0, Delegate's inner->outer group copy with None -> unset for BOTH slots of a group, restore on backtrack, "
+                     "values kept on atomic cut); Captures::get maps slot pairs to Option<Match> and truncation keeps exactly the capture slots (U-CAPS)."),
+        residual="Same as C01: that the winning VM path is the reference path is not covered.",
+        assumptions=[T_VSTD, T_ARITH, T_EXTRACT, "A1 (assume in run, EndAtomic): the explicit stack is non-empty and its top is <= the number of pending alternatives",
+                     "A2 (assume in run, FailNegativeLookAround): an alternative resuming at pc+1 is pending",
+                     "A3 (assume / precondition): iteration counters and the backtrack counter stay below 2^64 - 1 (backtrack_limit < usize::MAX)",
+                     "A4 (assume in run, End): slots 0 and 1 have been set when End is reached",
+                     "A5 (assume in run, Restore): the restored slot has been set",
+                     "prog_wf(prog): static well-formedness of the program (jump targets, slot indices, counter / position slot typing) is a PRECONDITION of run; U-COMPILE covers the functions that emit code",
+                     "T-RA-search / T-RA-look: regex-automata's anchored search returns offsets in [ix, len] on char boundaries with paired slots; LookMatcher is total and the unicode word-boundary variants return Ok",
+                     "the inner interpreter loop is verified with exec_allows_no_decreases_clause: termination of a non-failing instruction cycle is NOT proved"],
+    ),
+    'C15': dict(
+        level='proof',
+        explanation=("Component obligations: the BackrefExistsCondition arm of run fails iff the group's start slot is unset; BeginAtomic / EndAtomic push the current depth and cut to it (refinement + U-STATE), "
+                     "so a condition that matched discards exactly the alternatives created since BeginAtomic."),
+        residual=("compile_conditional's emitted shape and parse_conditional are not under contract yet (U-COMPILE); known finding KF2: a failed condition leaves its BeginAtomic entry on the explicit stack "
+                  "(see known-findings.txt), so A1 is violated for nested conditionals / conditionals inside atomic groups."),
+        assumptions=[T_VSTD, T_ARITH, T_EXTRACT, "A1 (assume in run, EndAtomic): the explicit stack is non-empty and its top is <= the number of pending alternatives",
+                     "A2 (assume in run, FailNegativeLookAround): an alternative resuming at pc+1 is pending",
+                     "A3 (assume / precondition): iteration counters and the backtrack counter stay below 2^64 - 1 (backtrack_limit < usize::MAX)",
+                     "A4 (assume in run, End): slots 0 and 1 have been set when End is reached",
+                     "A5 (assume in run, Restore): the restored slot has been set",
+                     "prog_wf(prog): static well-formedness of the program (jump targets, slot indices, counter / position slot typing) is a PRECONDITION of run; U-COMPILE covers the functions that emit code",
+                     "T-RA-search / T-RA-look: regex-automata's anchored search returns offsets in [ix, len] on char boundaries with paired slots; LookMatcher is total and the unicode word-boundary variants return Ok",
+                     "the inner interpreter loop is verified with exec_allows_no_decreases_clause: termination of a non-failing instruction cycle is NOT proved"],
     ),
 }
